@@ -1,5 +1,6 @@
 mod alloc;
 mod bitops;
+mod branchupd;
 mod core_mp;
 mod core_pp;
 mod crash;
@@ -78,6 +79,8 @@ fn main() {
             let focus = arg(&args, "--focus").unwrap_or_else(|| "all".into());
             walker::run(seed, cases, &focus, &mut sink)
         }
+        "branchupd" => branchupd::run(seed, cases, &mut sink),
+        "branchupd-firstleaf" => branchupd::first_leaf_scenario(&mut sink),
         "core-pp" => core_pp::run(seed, cases, &mut sink),
         "core-mp" => core_mp::run(seed, cases, &mut sink),
         "core-mp-corpus" => {
